@@ -208,4 +208,4 @@ let handle (line : string) (kind : string) (args : string list) (obs : string) :
   match kind with
   | "absearch" -> handle_absearch line args obs
   | "halt" -> handle_halt line args obs
-  | _ -> Dispatch4.handle line kind args obs
+  | _ -> failwith ("unknown case kind: " ^ line)
